@@ -322,6 +322,10 @@ def equivalent(a, b, extra_rules=None, _case_split=True) -> str:
     a, b = canon_minmax(a), canon_minmax(b)
     if a == b:
         return Verdict.EQUAL
+    if a.has(F_("floordiv")) or b.has(F_("floordiv")):
+        a, b = canon_floordiv(a), canon_floordiv(b)
+        if a == b or sp.expand(a - b) == 0:
+            return Verdict.EQUAL
     try:
         a2, b2 = canon_filled_arrays(a), canon_filled_arrays(b)
         if a2 != a or b2 != b:
@@ -394,6 +398,49 @@ def distribute_item(t, is_array=lambda a: not a.is_number):
                 return a.func(*[x if x.is_number else distribute_item(op("item", x, ix), is_array) for x in a.args])
         return None
     return rewrite(t, fn)
+
+
+def canon_floordiv(t):
+    """Floor-division identities with positive integer divisors a, b (x any real, q integer valued):
+    (x // a) // b == x // (a*b);   (x + m*a*q) // a == x // a + m*q for an integer m."""
+    def int_valued(q):
+        if q.is_Integer:
+            return True
+        if fname(q) == "floordiv":
+            return True
+        if isinstance(q, sp.Mul):
+            return all(int_valued(a) for a in q.args)
+        if isinstance(q, sp.Add):
+            return all(int_valued(a) for a in q.args)
+        return False
+
+    def fn(n):
+        if fname(n) != "floordiv" or len(n.args) != 2:
+            return None
+        x, a = n.args
+        if not (getattr(a, "is_Integer", False) and a > 0):
+            return None
+        if fname(x) == "floordiv" and getattr(x.args[1], "is_Integer", False) and x.args[1] > 0:
+            return fn(op("floordiv", x.args[0], x.args[1] * a)) or op("floordiv", x.args[0], x.args[1] * a)
+        xe = sp.expand(x)
+        if isinstance(xe, sp.Add):
+            keep, out = [], []
+            for term in xe.args:
+                c, rest = term.as_coeff_Mul()
+                if c.is_Integer and c % a == 0 and rest != 1 and int_valued(rest):
+                    out.append((c // a) * rest)
+                elif term.is_Integer and term % a == 0:
+                    out.append(term // a)
+                else:
+                    keep.append(term)
+            if out:
+                inner = sp.Add(*keep)
+                return (fn(op("floordiv", inner, a)) or op("floordiv", inner, a)) + sp.Add(*out)
+        return None
+    try:
+        return rewrite(t, fn)
+    except Exception:
+        return t
 
 
 def canon_minmax(t):
